@@ -145,7 +145,8 @@ def main():
             if rc == 0:
                 rc = 2
         if not a.no_evidence and not a.only:
-            write_evidence(pid, tier, seed, results, known_hits, vio_records, problems, time.time() - t0)
+            samples, nvalid = witness_samples(pid, results, workdir, seed)
+            write_evidence(pid, tier, seed, results, known_hits, vio_records, problems, time.time() - t0, samples, nvalid)
     finally:
         if not a.keep:
             shutil.rmtree(workdir, ignore_errors=True)
@@ -183,7 +184,48 @@ def hello_fallback(pid, violations, others, workdir):
     return violations
 
 
-def write_evidence(pid, tier, seed, results, known_hits, vios, problems, wall):
+def witness_samples(pid, results, workdir, seed, maxq=3):
+    """Concrete cases: for up to maxq replayable queries take the solver's witness trace (a path that reaches the end of
+    the harness), extract the inputs and run the same harness natively (gcc + ASan/UBSan) on them: every oracle
+    assertion must hold there too. Validates encoding and oracles against the real build on concrete cases."""
+    out = []; nvalid = 0
+    cands = [r for r in results if r.status == "done" and r.q.replay and not r.failed and any("end" in w for w in r.witness_reached)]
+    if cands:
+        k = seed % len(cands)
+        cands = cands[k:] + cands[:k]
+    for r in cands[:maxq]:
+        wp = None
+        for p in r.props:
+            if vlib.classify_prop(p)[0] == "witness" and "end" in p.get("description", "") and p.get("status") == "FAILURE":
+                wp = p.get("property")
+        if not wp:
+            continue
+        try:
+            tr = vlib.get_trace(r.q, r.gb, os.path.join(workdir, r.q.name), r.backend.split("/")[0].split("+")[0], wp)
+        except Exception:
+            tr = None
+        if not tr:
+            continue
+        vals = vlib.extract_inputs(tr)
+        cdir = os.path.join(workdir, r.q.name, "wit")
+        os.makedirs(cdir, exist_ok=True)
+        with open(os.path.join(cdir, "replay_init.inc"), "w") as f:
+            for lhs, d in vals.items():
+                lit = vlib.c_literal(d)
+                if lit is not None and lhs != "in" and "$" not in lhs:
+                    f.write("%s = %s;\n" % (lhs, lit))
+        st, tail = vlib.native_replay(r.q, cdir, "replay_init.inc")
+        ok = (st == "not_reproduced")            # native run finished with every assertion holding
+        if ok:
+            nvalid += 1
+        nz = {k_: v for k_, v in vals.items() if str(v) not in ("0", "0u", "0ul", "FALSE", "0l") and "$" not in k_}
+        keys = sorted(nz)[:40]
+        out.append({"query": r.q.name, "entry": r.q.entry, "witness_property": wp, "native_run": "all assertions hold" if ok else st,
+                    "inputs_nonzero_excerpt": {k_: nz[k_] for k_ in keys}, "inputs_total": len(vals)})
+    return out, nvalid
+
+
+def write_evidence(pid, tier, seed, results, known_hits, vios, problems, wall, wsamples=None, nvalid=0):
     os.makedirs(os.path.join(vlib.VERIF, "evidence"), exist_ok=True)
     qs = []; fns = set(); nprops = 0; nsucc = 0; solver = 0.0; samples = []; labels = set()
     for r in results:
@@ -201,6 +243,7 @@ def write_evidence(pid, tier, seed, results, known_hits, vios, problems, wall):
                    "failed": [p.get("description") for p in r.failed], "witnesses_reached": r.witness_reached,
                    "wall_s": round(r.wall, 2), "solver_s": r.solver_s, "symex_s": r.stats.get("symex_s"), "sat_variables": r.stats.get("sat_variables"), "sat_clauses": r.stats.get("sat_clauses"), "peak_rss_mb": r.rss_mb,
                    "big_endian": q.big_endian, "error": r.error})
+    samples.extend(wsamples or [])
     for r in results[:6]:
         samples.append({"query": r.q.name, "entry": r.q.entry, "symbolic_inputs": r.q.bounds,
                         "example_obligations": [p.get("description") for p in r.props if vlib.classify_prop(p)[0] == "assert"][:6]})
@@ -213,6 +256,7 @@ def write_evidence(pid, tier, seed, results, known_hits, vios, problems, wall):
             "rule": "each evaluation is one verification condition (harness assertion or CBMC-generated safety check) decided by the SAT/SMT back end over all symbolic inputs within the stated bounds; distinct_nontrivial counts distinct (query, condition) pairs that came back UNSAT in a query whose reachability witness (assert(0) at harness end / inside the transmit oracle) was shown reachable",
             "samples": samples,
             "queries": qs,
+            "traces_validated_against_impl": nvalid,
             "queries_total": len(results),
             "queries_conclusive": sum(1 for r in results if r.status == "done"),
             "functions_encoded": repo_fns,
